@@ -841,11 +841,17 @@ impl SvgElement {
         // The same applies to position attributes which aren't native to the shape
         // (e.g. `x2` on a circle); these are replaced when layout completes.
         let foreign_attrs: &[&str] = match self.name.as_str() {
-            "rect" => &["x1", "y1", "x2", "y2", "cx", "cy"],
-            "circle" => &["x", "y", "x1", "y1", "x2", "y2", "width", "height"],
-            "ellipse" => &["x", "y", "x1", "y1", "x2", "y2", "width", "height"],
-            "line" => &["x", "y", "cx", "cy", "width", "height"],
-            _ => &[],
+            "rect" => &["x1", "y1", "x2", "y2", "cx", "cy", "dx", "dy"],
+            "circle" => &[
+                "x", "y", "x1", "y1", "x2", "y2", "width", "height", "dx", "dy",
+            ],
+            "ellipse" => &[
+                "x", "y", "x1", "y1", "x2", "y2", "width", "height", "dx", "dy",
+            ],
+            "line" => &["x", "y", "cx", "cy", "width", "height", "dx", "dy"],
+            // `dx` / `dy` are native to these; elsewhere they are a pending offset
+            "text" | "tspan" | "feOffset" => &[],
+            _ => &["dx", "dy"],
         };
         if let Some(attr) = UNRESOLVED_ATTRS
             .iter()
